@@ -77,7 +77,14 @@ pub struct Script {
     pub drop_files: bool,
     /// panic inside the handler for this method (fault injection for teardown checks)
     pub validate: bool,
+    /// every handler dawdles this long before it records its invocation (makes "the caller was
+    /// answered before the handler ran" observable without a race)
+    pub handler_delay_us: u64,
 }
+
+/// Handler invocations recorded so far in this process; readable without the adapter's lock
+/// (reading the log itself would wait for a handler that is still running).
+pub static HANDLERS_RECORDED: std::sync::atomic::AtomicU64 = std::sync::atomic::AtomicU64::new(0);
 
 impl Default for Script {
     fn default() -> Self {
@@ -96,6 +103,7 @@ impl Default for Script {
             shmem: (0, Vec::new()),
             drop_files: false,
             validate: true,
+            handler_delay_us: 0,
         }
     }
 }
@@ -141,8 +149,12 @@ impl RecBackend {
         }
     }
     fn rec(&mut self, method: &'static str, args: Vec<u64>, bytes: Vec<u8>, files: Vec<File>) {
+        if self.script.handler_delay_us > 0 {
+            std::thread::sleep(std::time::Duration::from_micros(self.script.handler_delay_us));
+        }
         let fds = files.iter().map(|f| (f.as_raw_fd(), sys::ident(f.as_raw_fd()))).collect();
         self.log.push(Call { method, args, bytes, fds });
+        HANDLERS_RECORDED.fetch_add(1, std::sync::atomic::Ordering::SeqCst);
         if !self.script.drop_files {
             self.held.extend(files);
         }
